@@ -147,3 +147,26 @@ def c14(run):
                              "members, mixed collections, every ring start/direction/hole order (variants), ForceCW/CCW/Reverse, all "
                              "coordinate types, exact-similarity images, Area with a transform; non-trivial = non-empty"}
     family_random(run, "measure", "Trace_Measure", tier_n(run, 10000, 400000))
+
+FAMILY_MODULE["boundary"] = "Trace_Boundary"
+
+
+def _canary_boundary(e):
+    if not e["g"] or e["pos"]["empty"]:
+        return None
+    e["pos"]["q"] = [-5000, -5000]
+    e["pos"]["exact"] = False
+    return e
+
+
+CANARY["boundary"] = _canary_boundary
+
+
+@prop("C15")
+def c15(run):
+    run.assumptions += ["exact on lattices N<=16 and exact-similarity images; PointOnSurface decided with a 2^-10 rounding box "
+                        "(points nearer than that to a ring are inconclusive, never a violation)"]
+    run.extra_cov = {"rule": "random valid lattice geometries of all types; concave/U/comb/sliver polygons, polygons with holes "
+                             "touching the shell, closed and self-touching lines, multilinestrings sharing end points 2..5 ways, "
+                             "collections with empty members; non-trivial = non-empty"}
+    family_random(run, "boundary", "Trace_Boundary", tier_n(run, 10000, 400000))
